@@ -391,6 +391,13 @@ def _pure_path(e) -> bool:
         return True
     if isinstance(e, ast.Attribute):
         return _pure_path(e.value)
+    # a condition computed into a local (`eligible = dest == 0 or m.mod_id == dest`): boolean structure over pure paths
+    if isinstance(e, ast.BoolOp):
+        return all(_pure_path(v) for v in e.values)
+    if isinstance(e, ast.UnaryOp) and isinstance(e.op, ast.Not):
+        return _pure_path(e.operand)
+    if isinstance(e, ast.Compare):
+        return _pure_path(e.left) and all(_pure_path(c) for c in e.comparators)
     return False
 
 
